@@ -1,5 +1,111 @@
-(* C32  Pairing messages are only accepted in protocol order.  Statements only; proofs in SM/SMProofs.v. *)
-From BT Require Import Base.ListX SM.SMModel SM.SMSpec SM.ToyCrypto SM.SMInst.
+(* C32  Pairing messages are only accepted in protocol order.  Statements only; proofs in SM/SMProofs.v.
+
+   monitor32 (SM/SMSpec.v) follows the pairing protocol of the Core specification from operations and
+   outputs only: a step is accepted (answered with the next protocol PDU) only if it is the step that is
+   due - legacy: request, confirm, random; LESC: request, public key, (our confirm is polled), random,
+   DHKey check - has the right length and valid parameters, and its check value verifies (c1 confirm,
+   f6 DHKey check); a due and valid step must not be rejected; everything else is answered with Pairing
+   Failed, after which the next step due is a Pairing Request again; the revealed random values are the
+   ones committed to by the confirm values sent before; Eb leaves the device only after the received Ea
+   verified and - with numeric comparison - the user said yes.
+
+   All statements are for EVERY tool box K (c1, s1, f4, f5, f6, g2, p256, is_valid_public_key, random
+   sources, OOB data) satisfying tool_box_ok (p256 of the tool box's own key pairs is the DH function
+   on public keys; generated passkeys are 32-bit numbers), every bond data base, and operation sequences
+   of any length: SMP PDUs of any bytes, output polls, user answers, passkey entries, encryption
+   changes, key requests, status queries, reconnects. *)
+From BT Require Import Base.ListX SM.SMModel SM.SMSpec SM.SMProofs SM.ToyCrypto.
 Local Open Scope N_scope.
 
-Example C32_placeholder : True. Proof. exact I. Qed.
+(* The full statement: for every configuration that compiles, the monitor accepts every trace. *)
+Definition C32_order_full : Prop := order_full.
+
+(* It is FALSE of the code as it is ... *)
+Theorem C32_order_refuted : ~ C32_order_full.
+Proof. exact order_refuted. Qed.
+Print Assumptions C32_order_refuted.
+
+(* ... with these witnesses, LESC numeric comparison (yes/no input and a display), replayed on the
+   real classes (corpus/C32/witnesses.trace, known findings C32-eb-before-ea, C32-eb-bad-ea,
+   C32-late-user-response-assert): *)
+Theorem C32_eb_sent_before_ea_received :
+  toy_monitor32 (cfg_numeric MLesc SyncYes) w_eb_before_ea = Some (4%nat, t_eb_before_ea).
+Proof. exact eb_before_ea_witness. Qed.
+Theorem C32_eb_sent_after_wrong_ea :
+  toy_monitor32 (cfg_numeric MBoth Async) w_eb_bad_ea = Some (6%nat, t_eb_bad_ea).
+Proof. exact eb_bad_ea_witness. Qed.
+Theorem C32_key_offered_after_wrong_ea :
+  exists k, nth 7 (map snd (run toy toydbops (cfg_numeric MBoth Async) (init_state ([] : toydb)) w_eb_bad_ea)) ODone = OKey (Some k).
+Proof. exact eb_bad_ea_key_offered. Qed.
+Theorem C32_late_user_answer_asserts :
+  toy_monitor32 (cfg_numeric MLesc Async) w_late_answer = Some (5%nat, t_fault).
+Proof. exact late_answer_witness. Qed.
+
+(* What does hold. (1) For every configuration that cannot ask the user to compare numbers (anything
+   but pairing_yes_no together with pairing_numeric_output) the monitor accepts every trace: the full
+   statement restricted to these configurations. *)
+Theorem C32_order_partial :
+  forall (K : crypto) (DB : Type) (D : dbops DB), dh_ok K -> passkey_ok K ->
+  forall c db0 ops, ~ numeric_cfg c ->
+    monitor32 K D c db0 (run K D c (init_state db0) ops) = None.
+Proof. exact monitor32_accepts. Qed.
+Print Assumptions C32_order_partial.
+
+(* (2) For ALL configurations the only clauses that can fail are the three of the numeric comparison
+   defect: Eb sent before an Ea was received, Eb sent although the received Ea is wrong, the assert on a
+   late user answer. In particular, in every configuration: order, lengths, parameter validity, the
+   legacy confirm check before srand is revealed, the commitment of srand / Nb, the Ea check on the
+   l2cap_input path, no Eb without the user's yes, Pairing Failed and back to idle for everything else.
+   What is missing w.r.t. the full statement is exactly: Ea is not verified (not even awaited) on the
+   path user_response_success -> lesc_l2cap_output. *)
+Theorem C32_only_numeric_comparison_clauses_fail :
+  forall (K : crypto) (DB : Type) (D : dbops DB), dh_ok K -> passkey_ok K ->
+  forall c db0 ops,
+    match monitor32 K D c db0 (run K D c (init_state db0) ops) with
+    | None => True
+    | Some (_, t) => t = t_eb_before_ea \/ t = t_eb_bad_ea \/ t = t_fault
+    end.
+Proof. exact monitor32_only_known. Qed.
+Print Assumptions C32_only_numeric_comparison_clauses_fail.
+
+(* the hypotheses are satisfiable: the toy tool box used for the runs satisfies them *)
+Example C32_tool_box_hypotheses_nonvacuous : dh_ok toy /\ passkey_ok toy.
+Proof. exact (conj toy_dh_ok toy_passkey_ok). Qed.
+
+(* non-vacuity: complete exchanges (legacy passkey entry with bonding and key distribution; LESC Just Works
+   with a verified DHKey check) are accepted ... *)
+Example C32_accepts_complete_exchanges :
+  toy_monitor32 cfg_keyboard_display w_legacy_passkey = None /\
+  toy_monitor32 cfg_both_noio [In [1; 3; 0; 8; 16; 0; 1]; In (12 :: toy_pk); Out; In (4 :: w35_na); In (13 :: w35_ea [3; 0; 8]); Status; Key 0 0] = None.
+Proof. split; [exact (proj1 legacy_passkey_accepted) | exact (proj1 lesc_just_works_accepted)]. Qed.
+(* ... and the monitor rejects a Pairing Random answered before Pairing Confirm, and a revealed srand
+   after a confirm value that does not verify *)
+Example C32_monitor_rejects_random_before_confirm :
+  monitor_from (mstep32 toy toydbops) cfg_bond_legacy (minit ([] : toydb)) O
+    [(In w34_preq, OResp w34_pres []); (In (4 :: zeros 16), OResp (4 :: zeros 16) [])] = Some (1%nat, t_order).
+Proof. exact monitor_rejects_random_before_confirm. Qed.
+Example C32_monitor_rejects_unverified_confirm :
+  monitor_from (mstep32 toy toydbops) cfg_bond_legacy (minit ([] : toydb)) O
+    [(In w34_preq, OResp w34_pres []); (In (3 :: zeros 16), OResp (3 :: zeros 16) []); (In (4 :: zeros 16), OResp (4 :: zeros 16) [])]
+  = Some (2%nat, t_order).
+Proof. exact monitor_rejects_unverified_confirm. Qed.
+
+(* constants regenerated from security_manager.hpp / security_connection_data.hpp on every run *)
+From BT Require gen.GenSM.
+Example C32_constants_are_the_codes :
+  GenSM.op_pairing_request = 1 /\ GenSM.op_pairing_response = 2 /\ GenSM.op_pairing_confirm = 3 /\
+  GenSM.op_pairing_random = 4 /\ GenSM.op_pairing_failed = 5 /\ GenSM.op_pairing_public_key = 12 /\
+  GenSM.op_pairing_dhkey_check = 13 /\
+  GenSM.err_passkey_entry_failed = 1 /\ GenSM.err_confirm_value_failed = 4 /\ GenSM.err_pairing_not_supported = 5 /\
+  GenSM.err_command_not_supported = 7 /\ GenSM.err_unspecified_reason = 8 /\ GenSM.err_invalid_parameters = 10 /\
+  GenSM.err_dhkey_check_failed = 11 /\
+  GenSM.pairing_req_resp_size = 7 /\ GenSM.pairing_confirm_size = 17 /\ GenSM.pairing_random_size = 17 /\
+  GenSM.public_key_exchange_size = 65 /\ GenSM.pairing_dhkey_check_size = 17 /\
+  GenSM.min_max_key_size = 7 /\ GenSM.max_max_key_size = 16 /\ GenSM.flag_secure_connections = 8 /\
+  map pstate_code [Idle; Completed; UserWait; UserFailed; UserSuccess; LegacyRequested; LegacyConfirmed;
+                   LescRequested; LescKeysExchanged; LescConfirmSend; LescRandomExchanged]
+  = [GenSM.st_idle; GenSM.st_pairing_completed; GenSM.st_user_response_wait; GenSM.st_user_response_failed;
+     GenSM.st_user_response_success; GenSM.st_legacy_pairing_requested; GenSM.st_legacy_pairing_confirmed;
+     GenSM.st_lesc_pairing_requested; GenSM.st_lesc_public_keys_exchanged; GenSM.st_lesc_pairing_confirm_send;
+     GenSM.st_lesc_pairing_random_exchanged].
+Proof. repeat split; reflexivity. Qed.
